@@ -116,6 +116,7 @@ def step (st : St) (ws : List String) : St × String :=
     match d.toNat? with
     | some d => if d < st.store.dirs.length then (st, showDir (st.store.dir d)) else (st, "bad-op")
     | none => (st, "bad-op")
+  | ["sizes"] => (st, s!"{st.store.dirs.length} {st.store.leaves.length} {st.store.tmpls.length}")
   | ["leafinfo", l] =>
     match l.toNat? with
     | some l => if l < st.store.leaves.length then (st, s!"links={(st.store.leaf l).links}") else (st, "bad-op")
